@@ -92,6 +92,37 @@ def register(R):
                'result._it.pos == 0'],
       bounded='bounded_resume_sources'))
 
+  # ---- the pipeline checkpoint is a snapshot: it shares no mutable object with the running iterator ----------------------
+  TM = 'ml_metrics/_src/chainables/transform.py'
+  ITER = 'ml_metrics/_src/utils/iter_utils.py'
+  from pyvc.builtins_ import deepcopy_fn
+  R.cls('_RunnerIterator', dict(agg_state='map[obj,obj]', batch_index='int', _with_agg='bool', _with_result='bool'))
+  R.cls('_IteratorState', dict(input_states='list[obj]', agg_state='map[obj,obj]'), frozen=True)
+  # ASSUMED: the states of the data sources, collected by MultiplexIterator.state (one per source, in order)
+  R.add(Contract(f'{ITER}::MultiplexIterator.state', 'trusted', types=dict(self='_RunnerIterator'), ret='list[obj]', may_raise=['TypeError']))
+
+  @R.spec
+  def copy_of(it, a, k):
+    return VOpaque(deepcopy_fn(it.to_obj(a[0])))
+
+  @R.spec
+  def state_value(it, a, k):
+    m, key = a
+    return VOpaque(z3.Select(m.val, it.to_obj(key)))
+
+  R.add(Contract(
+      f'{TM}::_RunnerIterator.state', P, types=dict(self='_RunnerIterator'), ret='_IteratorState', may_raise=['TypeError'],
+      ensures=[
+          # same keys; every aggregation state in the checkpoint is a NEW object (a deep copy), never the live one
+          "forall(lambda k: (k in result.agg_state) == (k in self.agg_state), 'obj')",
+          "forall(lambda k: implies(k in self.agg_state, state_value(result.agg_state, k) is copy_of(state_value(self.agg_state, k))"
+          " and state_value(result.agg_state, k) is not state_value(self.agg_state, k)), 'obj')",
+          # the source states too
+          "len(result.input_states) == len(last_result('MultiplexIterator.state'))",
+          "forall(lambda j: result.input_states[j] is copy_of(last_result('MultiplexIterator.state')[j]), 0, len(result.input_states))"],
+      bounded='bounded_resume_pipeline',
+      note='updating the running iterator after the checkpoint cannot change the checkpoint (A2: copy.deepcopy makes new objects)'))
+
   R.bounded_checks[P] = [
       ('bounded_resume_sources', 'SequenceDataSource / ShardedIterable (sharded, nested): every cut, up to 3 successive checkpoints'),
       ('bounded_resume_pipeline', 'apply+aggregate pipelines (num_threads=0): restored run delivers the rest and the same final aggregate'),
